@@ -89,6 +89,7 @@ type Ctx struct {
 	oc       map[string]struct{}
 	mark     *os.File
 	evalTick int64
+	auto     []string
 	expired  bool
 	replay   bool
 }
@@ -123,6 +124,9 @@ func (c *Ctx) Nontrivial(key string) {
 	if _, ok := c.nt[k]; !ok {
 		c.nt[k] = struct{}{}
 		c.res.Nontrivial++
+		if len(c.auto) < 2 && len(key) < 600 {
+			c.auto = append(c.auto, key) // fallback sample: the driver's own description of a non-trivial case
+		}
 	}
 }
 
